@@ -269,6 +269,10 @@ def run(ctx):
     scope.rule_push_target_scope(ctx, "R2.3")
     scope.rule_join_current_scope(ctx, "R2.4")
     scope.rule_memo_scope_free(ctx, "R2.4m")
+    scope.rule_lazy_inside_scope(ctx, "R2.8")
+    # R2.9: "obtainable through a handler": a handler registered for the scheme is what retrieves, before any built-in retrieval
+    from .c15 import rule_handler_selection
+    rule_handler_selection(ctx, "R2.9")
     # R2.5a: "the base URI in effect" is established by the draft's own id key and by nothing else
     from . import tables
     tables.rule_id_key(ctx, "R2.5a")
